@@ -192,3 +192,137 @@ Example list_cancel_example :
   list_run true [[IErr 5]; [IOk [99%N] 0; IOk [100%N] 0]; []] [LFwd 1; LFwd 0; LCancel; LGiveUp 1; LFwd 1]
   = [LItem (IOk [99%N] 0); LItem (IErr 5); LClosed].
 Proof. vm_compute. reflexivity. Qed.
+
+(* ---- how a shard stream ends: EOF after its items, or a failure (any status) after some of them ---- *)
+
+(* what a shard goroutine forwards of its stream: everything up to and including the first error *)
+Fixpoint cut (ch : list item) : list item :=
+  match ch with
+  | [] => []
+  | x :: r => if is_err x then [x] else x :: cut r
+  end.
+
+Lemma cut_err_free ch : Forall (fun x => is_err x = false) ch -> cut ch = ch.
+Proof.
+  induction ch as [|x r IH]; intros H; [reflexivity|]. inversion H; subst. cbn. rewrite H2. now rewrite IH.
+Qed.
+
+Lemma cut_keeps_error ch : (exists x, In x ch /\ is_err x = true) -> exists y, In y (cut ch) /\ is_err y = true.
+Proof.
+  induction ch as [|x r IH]; intros (y & Hin & Hy); [destruct Hin|]. cbn.
+  destruct (is_err x) eqn:E; [exists x; split; [left; reflexivity|exact E]|].
+  destruct Hin as [->|Hin]; [congruence|].
+  destruct (IH (ex_intro _ y (conj Hin Hy))) as (z & Hz & Ez). exists z. split; [right; exact Hz|exact Ez].
+Qed.
+
+Lemma map_set_nth {B} (f : list item -> B) i c chans :
+  map f (set_nth i c chans) = firstn i (map f chans) ++ f c :: skipn (S i) (map f chans).
+Proof. unfold set_nth. rewrite map_app, firstn_map. cbn [map]. now rewrite skipn_map. Qed.
+
+Lemma concat_cut_step : forall i (chans : list (list item)) x r,
+  nth_error chans i = Some (x :: r) ->
+  Permutation (concat (map cut chans))
+              (x :: concat (map cut (set_nth i (if is_err x then [] else r) chans))).
+Proof.
+  unfold set_nth.
+  induction i as [|i IH]; intros [|c chans] x r H; try discriminate.
+  - cbn in H. inversion H; subst. cbn [firstn skipn app map concat cut].
+    destruct (is_err x); reflexivity.
+  - cbn [nth_error] in H. change (skipn (S (S i)) (c :: chans)) with (skipn (S i) chans).
+    cbn [firstn app map concat]. rewrite (IH chans x r H). symmetry. apply Permutation_middle.
+Qed.
+
+Definition no_cancel (evs : list levent) : Prop := Forall (fun e => e <> LCancel) evs.
+
+(* without cancellation: what has been forwarded plus what the goroutines will still forward is, at every moment,
+   exactly what the shards streamed up to their first error *)
+Lemma list_run_cut : forall evs s,
+  l_dead s = false -> l_cancelled s = false -> (l_closed s = true -> all_returned (l_chans s) = true) ->
+  no_cancel evs ->
+  let s' := fst (list_run_from true s evs) in
+  let o := snd (list_run_from true s evs) in
+  Permutation (concat (map cut (l_chans s))) (litems o ++ concat (map cut (l_chans s'))) /\
+  (In LClosed o \/ l_closed s = true -> all_returned (l_chans s') = true).
+Proof.
+  induction evs as [|ev evs IH]; intros s Hd Hca Hcl Hnc; cbn [list_run_from].
+  - cbn. split; [reflexivity|]. intros [[]|H]. exact (Hcl H).
+  - inversion Hnc as [|? ? Hev Hnc']; subst.
+    assert (Hstep : exists s1 o1, list_step true s ev = (s1, o1) /\ l_dead s1 = false /\ l_cancelled s1 = false /\
+              (l_closed s1 = true -> all_returned (l_chans s1) = true) /\
+              Permutation (concat (map cut (l_chans s))) (litems o1 ++ concat (map cut (l_chans s1))) /\
+              (In LClosed o1 \/ l_closed s = true -> l_closed s1 = true)).
+    { unfold list_step. rewrite Hd.
+      destruct ev as [i|i|]; [| |congruence].
+      - destruct (nth_error (l_chans s) i) as [[|x r]|] eqn:E.
+        1,3: exists s, []; repeat split; auto; intros [[]|H]; exact H.
+        pose proof (nth_cons_not_returned _ _ _ _ E) as Hnr.
+        destruct (l_closed s) eqn:C; [rewrite (Hcl eq_refl) in Hnr; discriminate|].
+        set (s1 := mkL (set_nth i (if is_err x then [] else r) (l_chans s)) (l_cancelled s) false false).
+        destruct (maybe_close_inv s1 eq_refl ltac:(cbn; discriminate)) as ((Hd2 & Hc2) & Hch & _ & Hobs).
+        assert (Hca2 : l_cancelled (fst (maybe_close s1)) = false).
+        { unfold maybe_close. destruct (negb (l_closed s1) && all_returned (l_chans s1)); cbn; exact Hca. }
+        destruct (maybe_close s1) as [s2 o2]. cbn [fst snd] in *.
+        exists s2, (LItem x :: o2). split; [reflexivity|]. split; [exact Hd2|]. split; [exact Hca2|].
+        split; [exact Hc2|]. split.
+        + rewrite Hch. cbn [s1 l_chans].
+          assert (Hl : litems (LItem x :: o2) = [x]) by (destruct Hobs as [->|(-> & _)]; reflexivity).
+          rewrite Hl. cbn [app]. apply concat_cut_step. exact E.
+        + intros [[H|H]|H]; [discriminate| |discriminate].
+          destruct Hobs as [->|(-> & _ & Hc3)]; [destruct H|exact Hc3].
+      - rewrite Hca. cbn [negb]. exists s, []. repeat split; auto. intros [[]|H]; exact H. }
+    destruct Hstep as (s1 & o1 & Hs & Hd1 & Hca1 & Hcl1 & P1 & Hc1). rewrite Hs.
+    destruct (IH s1 Hd1 Hca1 Hcl1 Hnc') as (P2 & Hfin).
+    destruct (list_run_from true s1 evs) as [s2 o2]. cbn [fst snd] in *.
+    split.
+    + rewrite litems_app, P1, P2, app_assoc. reflexivity.
+    + intros [H|H].
+      * apply in_app_or in H. destruct H as [H|H]; [apply Hfin; right; apply Hc1; left; exact H|apply Hfin; left; exact H].
+      * apply Hfin. right. apply Hc1. right. exact H.
+Qed.
+
+Lemma all_returned_nil chans : all_returned chans = true -> concat (map cut chans) = [].
+Proof.
+  unfold all_returned. induction chans as [|c chans IH]; intros H; [reflexivity|]. cbn in H.
+  apply andb_true_iff in H. destruct H as (Hc & H). destruct c; [|discriminate]. cbn. exact (IH H).
+Qed.
+
+(* Union or error: when the caller does not cancel and the result channel has been closed, what the consumer
+   received is exactly what every shard streamed up to and including its first failure -- so it is the union of
+   the per-shard results when every stream ended with EOF, and it contains an error when some stream failed,
+   whatever the status and however many items came before it. *)
+Theorem list_union_or_error : forall chans evs,
+  no_cancel evs -> In LClosed (list_run true chans evs) ->
+  Permutation (concat (map cut chans)) (litems (list_run true chans evs)) /\
+  (Forall (fun ch => Forall (fun x => is_err x = false) ch) chans ->
+     Permutation (concat chans) (litems (list_run true chans evs))) /\
+  ((exists ch x, In ch chans /\ In x ch /\ is_err x = true) ->
+     exists y, In y (litems (list_run true chans evs)) /\ is_err y = true).
+Proof.
+  intros chans evs Hnc Hclosed.
+  assert (Hmain : Permutation (concat (map cut chans)) (litems (list_run true chans evs))).
+  { unfold list_run in *.
+    set (s00 := mkL chans false false false) in *.
+    destruct (maybe_close_inv s00 eq_refl ltac:(cbn; discriminate)) as ((Hd0 & Hc0) & Hch & _ & Hobs).
+    assert (Hca0 : l_cancelled (fst (maybe_close s00)) = false).
+    { unfold maybe_close. destruct (negb (l_closed s00) && all_returned (l_chans s00)); reflexivity. }
+    destruct (maybe_close s00) as [s0 o0]. cbn [fst snd] in *.
+    pose proof (list_run_cut evs s0 Hd0 Hca0 Hc0 Hnc) as (P & Hfin).
+    destruct (list_run_from true s0 evs) as [s' o]. cbn [fst snd] in *.
+    rewrite Hch in P. cbn [s00 l_chans] in P.
+    assert (Hall : all_returned (l_chans s') = true).
+    { apply Hfin. apply in_app_or in Hclosed. destruct Hclosed as [H|H]; [|left; exact H].
+      right. destruct Hobs as [E|(E & _ & C)]; [rewrite E in H; destruct H|exact C]. }
+    rewrite (all_returned_nil _ Hall), app_nil_r in P. rewrite litems_app.
+    assert (litems o0 = []) by (destruct Hobs as [->|(-> & _)]; reflexivity).
+    rewrite H. exact P. }
+  split; [exact Hmain|]. split.
+  - intros Hef. rewrite <- Hmain. 
+    assert (E : map cut chans = chans).
+    { clear - Hef. induction chans as [|c cs IHc]; [reflexivity|]. inversion Hef; subst. cbn.
+      rewrite (cut_err_free c) by assumption. f_equal. apply IHc. assumption. }
+    rewrite E. reflexivity.
+  - intros (ch & x & Hch & Hx & Ex).
+    destruct (cut_keeps_error ch (ex_intro _ x (conj Hx Ex))) as (y & Hy & Ey).
+    exists y. split; [|exact Ey]. eapply Permutation_in; [exact Hmain|].
+    apply in_concat. exists (cut ch). split; [apply in_map; exact Hch|exact Hy].
+Qed.
